@@ -98,6 +98,9 @@ class SimLock:
     def release(self):
         self.baton.yield_point("release", self)
         self.held = False
+        # a second yield point right after the release: another thread may run between the end of a critical
+        # section and whatever the releasing thread does next (e.g. updating state outside the lock)
+        self.baton.yield_point("released", self)
 
     def __enter__(self):
         self.acquire()
